@@ -43,7 +43,7 @@ def configs():
 
 
 def shards(tier, seed):
-    out = [{"kind": "config", "transport": t, "model": md, "n": 14 if tier == "quick" else 300} for t, md in configs()]
+    out = [{"kind": "config", "transport": t, "model": md, "n": 40 if tier == "quick" else 400} for t, md in configs()]
     out.append({"kind": "cross", "n": 12 if tier == "quick" else 200})
     out.append({"kind": "control", "reps": 2 if tier == "quick" else 20})
     return out
